@@ -215,9 +215,24 @@ func closeBody(n int64) func(s *vsched.Sched) {
 		var cerr error
 		vsched.Go(func() { cerr = fc.Close() })
 		s.Settle()
+		// the deposed leader does not know yet: its connection ended with the refusal, it connects again to the
+		// node it knows and sends the entry once more. The closed controller must refuse, not fall over.
+		late := "not-connected"
+		if st2, err := net.GetReplicateStream(context.Background(), "n2", ns, shard, 1); err == nil {
+			late = "connected"
+			_ = st2.Send(&proto.Append{Term: 1, Entry: entry(1, n), CommitOffset: n - 1})
+			vsched.Go(func() {
+				if _, err := st2.Recv(); err != nil {
+					late = "refused"
+				} else {
+					late = "acknowledged"
+				}
+			})
+			s.Settle()
+		}
 		s.Explore(false)
 		// a panic in one of the controller's threads ends the execution as a failure of its own
-		s.Data = fmt.Sprintf("acks=%d close=%v", nacks, cerr)
+		s.Data = fmt.Sprintf("acks=%d close=%v late=%s", nacks, cerr, late)
 	}
 }
 
